@@ -150,13 +150,22 @@ def make_machine(em, m, T, sg, Rt, floor, upd):
     return mach
 
 
+def _layout(a):
+    """The same values in a memory layout chosen from the values themselves (deterministic): C order, Fortran
+    order or a strided view -- results must not depend on the layout of the caller's arrays."""
+    import random as _random
+    import zlib
+    from .common import relayout
+    return relayout(a, _random.Random(zlib.crc32(np.ascontiguousarray(a).tobytes())))
+
+
 def make_stats(em, n, f, s):
     n, f, s = np.asarray(n, dtype=float), np.asarray(f, dtype=float), np.asarray(s, dtype=float)
     st = em.GMMStats(f.shape[0], f.shape[1])
     st.t = int(np.ceil(n.sum()))
     st.n = n.copy()
-    st.sum_px = f.copy()
-    st.sum_pxx = s.copy()
+    st.sum_px = _layout(f.copy())
+    st.sum_pxx = _layout(s.copy())
     return st
 
 
